@@ -1,4 +1,4 @@
-\* AS CODED, expected counterexample (Agreement): tree T4b, two observers, 1 of 4 producers Byzantine: conflicting irreversible blocks
+\* OPEN FINDING F4, expected counterexample (Agreement): tree T4b, two observers, 1 of 4 producers Byzantine: conflicting irreversible blocks
 SPECIFICATION Spec
 CONSTANTS
   N = 4
@@ -9,7 +9,7 @@ CONSTANTS
   MaxRestarts = 0
   ByzMode = "any"
   ByzRanges <- R123
-  Fixes <- NoFix
+  Fixes <- AllFixes
 VIEW view
 INVARIANTS Agreement
 CHECK_DEADLOCK FALSE
